@@ -95,17 +95,17 @@ theorem gcSim_allow {c1 c2 : ClientLimiter} {τ : Nat} (h : GcSim c1 c2 τ) (e :
       rw [ClientLimiter.bucketOf_allowN_other _ _ _ _ _ hkk, ClientLimiter.bucketOf_allowN_other _ _ _ _ _ hkk2]
       exact ha k t (Nat.le_trans hte ht)
 
-theorem gcSim_gc {c1 c2 : ClientLimiter} {τ : Nat} (h : GcSim c1 c2 τ) (now : Nat) (hte : τ ≤ now)
+theorem gcSim_gc {c1 c2 : ClientLimiter} {τ : Nat} (h : GcSim c1 c2 τ) (now : Nat) (only : Option Addr) (hte : τ ≤ now)
     (hs : c1.burst * nano ≤ c1.limit * maxDuration) :
-    GcSim (c1.gcWith true now) c2 now := by
+    GcSim (c1.gcWith true now only) c2 now := by
   obtain ⟨ho, hl, ha⟩ := h
   refine ⟨by simpa using ho, fun k => ?_, fun k t ht => ?_⟩
   · refine ⟨?_, fun l hl' => Nat.le_trans ((hl k).2 l hl') hte⟩
-    rcases c1.bucketOf_gcWith true now k with h1 | ⟨h1, _⟩
+    rcases c1.bucketOf_gcWith true now only k with h1 | ⟨h1, _⟩
     · rw [h1]; exact fun l hl' => Nat.le_trans ((hl k).1 l hl') hte
     · rw [h1]; intro l hl'; simp [Bucket.fresh] at hl'
   · simp only [ClientLimiter.gcWith_limit, ClientLimiter.gcWith_burst]
-    rcases c1.bucketOf_gcWith true now k with h1 | ⟨h1, h2⟩
+    rcases c1.bucketOf_gcWith true now only k with h1 | ⟨h1, h2⟩
     · rw [h1]; exact ha k t (Nat.le_trans hte ht)
     · rw [h1, Bucket.avail_fresh_full _ _ _ hs, ← ha k t (Nat.le_trans hte ht)]
       have hm := Bucket.avail_mono c1.limit c1.burst (c1.bucketOf k) (hl k).1 hte ht
@@ -126,10 +126,10 @@ theorem gc_transparent_gen :
     intro c1 c2 τ hsim hsort hs
     obtain ⟨hte, hsort'⟩ := hsort
     cases o with
-    | gc now =>
+    | gc now only =>
       simp only [Op.time] at hte hsort'
       simp only [ClientLimiter.runOpsWith, Op.evs]
-      exact ih _ _ now (gcSim_gc hsim now hte hs) hsort' (by simpa using hs)
+      exact ih _ _ now (gcSim_gc hsim now only hte hs) hsort' (by simpa using hs)
     | allow e =>
       simp only [Op.time] at hte hsort'
       have h := gcSim_allow hsim e hte
